@@ -36,6 +36,7 @@ StdReasons(e) ==
   LET cls == StdClass(e.blob, e.al)
       stdBad == ~cls.std.ok \/ ~Fits(cls.std.ol, cls.std.wl, cls.std.z, cls.std.s)
   IN (IF e.init.panic # "" THEN {"go_panic_init"}
+      ELSE IF e.hang \/ e.mem \/ e.died # "" THEN {}
       ELSE IF stdBad /\ e.init.ok THEN {"init_accepts_malformed"}
       ELSE IF ~stdBad /\ ~e.init.ok THEN {"init_rejects_valid"} ELSE {})
      \cup (IF e.psi.panic # "" THEN {"go_panic_psi"}
